@@ -431,7 +431,8 @@ META = {
                  "hop only in an order RFC 5321/2033 allows (LHLO for LMTP and never HELO, HELO only after EHLO was refused "
                  "with 500/502, STARTTLS only when offered, no MAIL inside a transaction, no RCPT without an accepted MAIL, no "
                  "DATA without an accepted RCPT, nothing but the message inside DATA); MAIL carries SMTPUTF8/REQUIRETLS/SIZE/"
-                 "BODY only when offered, carries every requested option that is offered, and a requested REQUIRETLS that is "
+                 "BODY only when offered, carries every requested option that is offered, the client names itself localhost before "
+                 "and by its host name after a required STARTTLS, and a requested REQUIRETLS that is "
                  "not offered or a non-convertible address fails the call without a command; a call succeeds only on a positive "
                  "reply to its own command, an error names the reply to its own command with that reply's class (552 as 452), a "
                  "connection-level failure is never reported as permanent, and every LMTP status is the reply for that "
